@@ -275,7 +275,7 @@ private:
         {
             this->_io_dev.seek( get_offset( y + this->_settings._top_left.y ));
 
-            this->_io_dev.read( reinterpret_cast< byte_t* >( rh.data() )
+            this->_io_dev.read_exact( reinterpret_cast< byte_t* >( rh.data() )
                         , _pitch
                         );
 
@@ -354,7 +354,7 @@ private:
         {
             this->_io_dev.seek( get_offset( y + this->_settings._top_left.y ));
 
-            this->_io_dev.read( &row.front()
+            this->_io_dev.read_exact( &row.front()
                         , row.size()
                         );
 
@@ -412,7 +412,7 @@ private:
         {
             this->_io_dev.seek( get_offset( y + this->_settings._top_left.y ));
 
-            this->_io_dev.read( &row.front()
+            this->_io_dev.read_exact( &row.front()
                         , row.size()
                         );
 
